@@ -191,6 +191,9 @@ def reader_models():
 
     def r_elem(eng, st, args, kw, node):
         chk(eng, args[1])
+        # was this nested value asked for in its hashable (frozen) form?  (third positional argument or keyword)
+        fr = kw.get('_should_freeze', args[2] if len(args) > 2 else False)
+        st.env['LAST_DECODE_FROZEN'] = eng.truthy(fr)
         tok = take(eng, st, K_ELEM, node)
         eng.oblige(st, 'read/element-decoded-by-the-codec-that-encoded-it@L%d' % node.lineno, tok[3] == to_z3(args[0], 'U'))
         return tok[4]
@@ -685,12 +688,19 @@ def _record_ctor(cls, names):
     return model
 
 
+def _set_ctor_model(eng, st, args, kw, node):
+    # set(xs) / frozenset(xs) needs hashable elements: the element list must have been decoded in its frozen form whatever the
+    # caller asked for (a set<array<..>> decoded at top level would otherwise raise TypeError: unhashable type)
+    eng.oblige(st, 'set-elements-are-decoded-in-their-hashable-form', st.env.get('LAST_DECODE_FROZEN', z3.BoolVal(False)))
+    return _uf_model('set_of', ['U'])(eng, st, args, kw, node)
+
+
 def simple_codecs():
     freeze_axiom = 'set_of(list_of(value)) == value'  # list(s) enumerates exactly the elements of s (at the one set the contract talks about)
     return [
         delegating_writer('tset._convert_to_encoding', {'_array_repr': 'U'}, 'self._array_repr', 'list_of(value)', {}, SET_FUNCS, {'list': _uf_model('list_of', ['U'])}),
         delegating_reader('tset._convert_from_encoding', {'_array_repr': 'U'}, 'self._array_repr', 'list_of(value)', {'result': 'U'}, SET_FUNCS, [freeze_axiom],
-                          {'set': _uf_model('set_of', ['U']), 'frozenset': _uf_model('set_of', ['U'])}, [('decodes-the-set-of-the-elements-written', 'result == value')], ('returns-the-list', 'result == list_of(value)')),
+                          {'set': _set_ctor_model, 'frozenset': _set_ctor_model}, [('decodes-the-set-of-the-elements-written', 'result == value')], ('returns-the-list', 'result == list_of(value)')),
         delegating_writer('tinterval._convert_to_encoding', {'_struct_repr': 'U'}, 'self._struct_repr', IV_PAYLOAD, IV_TYPES, IV_FUNCS),
         delegating_reader('tinterval._convert_from_encoding', {'_struct_repr': 'U', 'point_type': 'U'}, 'self._struct_repr', IV_PAYLOAD, dict(IV_TYPES), IV_FUNCS,
                           ['{P}.start == value.start and {P}.end == value.end and {P}.includes_start == value.includes_start and {P}.includes_end == value.includes_end'.format(P=IV_PAYLOAD)],
@@ -1170,7 +1180,8 @@ def build(ctx):
         'the real codec classes (extracted by AST) over the real ByteReader/ByteWriter under /venv/bin/python: %s values (every missing pattern up to 10 slots, one-hot patterns up to 33 slots, non-ASCII strings, nested containers, dicts, sets, intervals, loci; no n-d arrays: numpy is not installed there) encoded, compared byte for byte with a little-endian reference encoder written from the property statement, decoded from both byte strings and compared with the original' % r.get('cases', 0),
         r.get('cases', 0), not r.get('confirmed'), r if (r.get('confirmed') or harness_broken) else '')
     if harness_broken:
-        ctx.notes.append('native battery did not run: %r' % (r,))
+        # a replay host that does not run is a defect of the machinery, never a pass
+        raise core.CheckerBug('native battery did not run: %r' % (r,))
     live = r.get('ndarray_numeric_fast_path_live_for')
     if harness_broken or live is None:
         ctx.undecided('tndarray: deadness of the numeric fast path could not be evaluated natively (harness did not run)')
